@@ -16,13 +16,20 @@ import (
 
 // vRandSource is a rand.Source64 whose outputs are arbitrary (adversarial,
 // repeating allowed).
-type vRandSource struct{ n int }
+type vRandSource struct {
+	n       int
+	nonzero bool // the harness is not about SEID draws: exclude the (reserved) value 0
+}
 
 func (s *vRandSource) Int63() int64    { return int64(s.Uint64() >> 1) }
 func (s *vRandSource) Seed(seed int64) {}
 func (s *vRandSource) Uint64() uint64 {
 	s.n++
-	return vU64("rng")
+	v := vU64("rng")
+	if s.nonzero {
+		vAssume(v != 0)
+	}
+	return v
 }
 
 // vMetrics is a recording metrics.InstrumentPFCP mirroring the gauge logic of
@@ -110,6 +117,11 @@ func (d *vDatapath) SendEndMarkers(l *[][]byte) error {
 }
 func (d *vDatapath) SendMsgToUPF(method upfMsgType, all PacketForwardingRules, updated PacketForwardingRules) uint8 {
 	cause := d.fixedCause
+	if r := all; method != upfMsgTypeMod && len(r.pdrs)+len(r.fars)+len(r.qers) == 0 {
+		cause = 1 // nothing to write: both plug-ins answer accepted without touching the datapath
+	} else if method == upfMsgTypeMod && len(updated.pdrs)+len(updated.fars)+len(updated.qers) == 0 {
+		cause = 1
+	}
 	if cause == 0 {
 		cause = 1 // ie.CauseRequestAccepted
 		if vBool("dp_rejects") {
